@@ -468,6 +468,13 @@ class Unit:
 
         if self.dimensions is logarithmic and p != 1:
             raise InvalidUnitOperation(f"Tried to raise '{self}' to power '{p}'")
+        if self.base_offset != 0.0 and p != 0 and p != 1:
+            # as in __mul__ and __truediv__: a reading on an offset scale
+            # (degC, degF, lat, lon) has no meaningful power, root or reciprocal
+            raise InvalidUnitOperation(
+                "Quantities with units that carry an offset (e.g. Fahrenheit or "
+                f"Celsius) cannot be raised to a power: tried '{self}' ** {p}."
+            )
 
         return Unit(
             self.expr**p,
